@@ -2627,6 +2627,11 @@ static CK_RV AsymEncrypt(Session* session, CK_BYTE_PTR pData, CK_ULONG ulDataLen
 
 	// We must allow input length <= k and therfore need to prepend the data with zeroes.
 	if (mechanism == AsymMech::RSA) {
+		if (ulDataLen > size)
+		{
+			session->resetOp();
+			return CKR_DATA_LEN_RANGE;
+		}
 		data.wipe(size-ulDataLen);
 	}
 
@@ -4648,6 +4653,11 @@ static CK_RV AsymSign(Session* session, CK_BYTE_PTR pData, CK_ULONG ulDataLen, C
 
 	// We must allow input length <= k and therfore need to prepend the data with zeroes.
 	if (mechanism == AsymMech::RSA) {
+		if (ulDataLen > size)
+		{
+			session->resetOp();
+			return CKR_DATA_LEN_RANGE;
+		}
 		data.wipe(size-ulDataLen);
 	}
 
@@ -5610,6 +5620,11 @@ static CK_RV AsymVerify(Session* session, CK_BYTE_PTR pData, CK_ULONG ulDataLen,
 
 	// We must allow input length <= k and therfore need to prepend the data with zeroes.
 	if (mechanism == AsymMech::RSA) {
+		if (ulDataLen > size)
+		{
+			session->resetOp();
+			return CKR_DATA_LEN_RANGE;
+		}
 		data.wipe(size-ulDataLen);
 	}
 
